@@ -25,7 +25,11 @@ type c01Prog struct {
 
 // the same program for the formal semantics (Folang/Sem): stream sem.prog
 func semProgSx(p c01Prog) string {
-	return "(sem.prog" + c01ProgSx(p)[len("(c01.prog"):]
+	name := "(sem.prog"
+	if gTiny {
+		name = "(sem.progT" // tinyfo keeps every given argument of a partial application inside the closure
+	}
+	return name + c01ProgSx(p)[len("(c01.prog"):]
 }
 
 func c01ProgSx(p c01Prog) string {
